@@ -318,7 +318,7 @@ def hunt3(chk, repo, sp):
             for l in PC.units(PC.pc(r, raw=True)):
                 if l.pos and l.text.startswith("self._") and l.text.isidentifier() is False and "(" not in l.text and " " not in l.text:
                     shortcuts.add(l.text.split(".", 1)[1])
-        br = [i for i in ast.walk(recv.node) if isinstance(i, ast.If) and norm.raw(i.test) == "msg.type is WSMsgType.CLOSING"]
+        br = [i for i in ast.walk(recv.node) if isinstance(i, ast.If) and M.contains(i.test, "msg.type is WSMsgType.CLOSING")]
         if not br:
             chk.analysis_error(f"C13.wake: {cn}.receive() has no branch for WSMsgType.CLOSING")
         else:
@@ -330,7 +330,8 @@ def hunt3(chk, repo, sp):
             for st in br[0].body:
                 for sub in ast.walk(st):
                     if isinstance(sub, ast.stmt) and not isinstance(sub, (ast.If,)) and (_self_attrs_set(cls, [sub]) & shortcuts):
-                        if not any(l.text == "self._closed" and not l.pos for l in PC.units(PC.pc(sub, stop=top, raw=True))):
+                        own_test = [l for c_ in norm.cnf_raw(br[0].test, True) if len(c_) == 1 for l in c_]  # `... is CLOSING and not self._closed`
+                        if not any(l.text == "self._closed" and not l.pos for l in list(PC.units(PC.pc(sub, stop=top, raw=True))) + own_test):
                             bad.append(sub)
             if not bad:
                 chk.ok("C13.wake", br[0], f"{tag} receive(): woken by close() (`_closed` already latched) it does not set {sorted(shortcuts) or 'any flag close() short-cuts on'}")
